@@ -1617,6 +1617,7 @@ static string opLts(const vector<string>& a)
 #include "ops/op_ordvec.inc"
 #include "ops/op_achain.inc"
 #include "ops/op_bddsim.inc"
+#include "ops/op_binrel.inc"
 
 // ---------------------------------------------------------------- API sweep (C20): every remaining public entry point of the four
 // encodings is called once on well-formed operands; each call may complete ('R'), throw NotImplementedException ('N') or
@@ -1753,6 +1754,7 @@ static string runCase(const string& kind, const vector<string>& args)
 	if (kind == "ordvec") return opOrdvec(args);
 	if (kind == "achain") return opAchain(args);
 	if (kind == "bddsim") return opBddsim(args);
+	if (kind == "binrel") return opBinrel(args);
 	return "BADKIND";
 }
 
